@@ -99,6 +99,113 @@ fn fail(st: &mut Stats, sig: &str, detail: String) {
     });
 }
 
+/// Objects whose counts, lengths and ids need two LEB128 bytes: a dimension of 130 attributes (ids
+/// up to 129, 131 rights, user keys with > 127 rights), a right re-keyed 130 times (chains of 131
+/// revisions), a 300-byte dimension name. Everything is round-tripped, read by the independent wire
+/// reader, and used.
+pub fn sizes(st: &mut Stats) {
+    let cc = Covercrypt::default();
+    let Out::Ok((mut msk, _)) = call(|| cc.setup()) else { return };
+    let big_dim = "Dim-".to_string() + &"x".repeat(300);
+    let _ = msk.access_structure.add_anarchy(big_dim.clone());
+    let _ = msk.access_structure.add_hierarchy("H".into());
+    for i in 0..130 {
+        let _ = msk.access_structure.add_attribute(QualifiedAttribute::new(&big_dim, &format!("a{i}")), hint(i % 50 == 7), None);
+    }
+    let _ = msk.access_structure.add_attribute(QualifiedAttribute::new("H", "L"), hint(false), None);
+    let Out::Ok(mpk) = call(|| cc.update_msk(&mut msk)) else {
+        fail(st, "sizes:update-fails", String::new());
+        return;
+    };
+    let star = AccessPolicy::parse("*").unwrap();
+    let a129 = AccessPolicy::parse(&format!("{big_dim}::a129 && H::L")).unwrap();
+    let Out::Ok(mut usk_all) = call(|| cc.generate_user_secret_key(&mut msk, &star)) else {
+        fail(st, "sizes:keygen-fails", String::new());
+        return;
+    };
+    let Out::Ok(mut usk_one) = call(|| cc.generate_user_secret_key(&mut msk, &a129)) else { return };
+    let Out::Ok((s0, e0)) = call(|| cc.encaps(&mpk, &a129)) else {
+        fail(st, "sizes:encaps-fails", String::new());
+        return;
+    };
+    // 130 revisions of the rights of a129's complementary space
+    let mut last_mpk = None;
+    for _ in 0..130 {
+        match call(|| cc.rekey(&mut msk, &a129)) {
+            Out::Ok(m) => last_mpk = Some(m),
+            o => {
+                fail(st, "sizes:rekey-fails", o.describe());
+                return;
+            }
+        }
+    }
+    let Some(mpk_new) = last_mpk else { return };
+    for (name, u) in [("all", &mut usk_all), ("one", &mut usk_one)] {
+        let o = call(|| cc.refresh_usk(&mut msk, u, true));
+        if !o.is_ok() {
+            fail(st, "sizes:refresh-fails", format!("{name}: {}", o.describe()));
+        }
+    }
+    let Out::Ok((s1, e1)) = call(|| cc.encaps(&mpk_new, &a129)) else { return };
+    macro_rules! rt {
+        ($x:expr, $ty:ty, $n:expr) => {{
+            match ser(&$x) {
+                Out::Ok(b) => {
+                    st.bump("roundtrips_ok");
+                    if b.len() != $x.length() {
+                        fail(st, &format!("sizes:length-mismatch:{}", $n), format!("length()={} bytes={}", $x.length(), b.len()));
+                    }
+                    match de::<$ty>(&b) {
+                        Out::Ok(y) if y == $x => Some((y, b)),
+                        o => {
+                            fail(st, &format!("sizes:roundtrip-not-equal:{}", $n), match o { Out::Ok(_) => "differs".to_string(), x => x.describe() });
+                            None
+                        }
+                    }
+                }
+                o => {
+                    fail(st, &format!("sizes:serialize-failed:{}", $n), o.describe());
+                    None
+                }
+            }
+        }};
+    }
+    let Some((msk2, mb)) = rt!(msk, MasterSecretKey, "msk") else { return };
+    let Some((_, pb)) = rt!(mpk_new, MasterPublicKey, "mpk") else { return };
+    let Some((usk_all2, ub)) = rt!(usk_all, UserSecretKey, "usk-131-rights") else { return };
+    let Some((usk_one2, _)) = rt!(usk_one, UserSecretKey, "usk-131-revisions") else { return };
+    let Some((e0b, _)) = rt!(e0, XEnc, "xenc") else { return };
+    let _ = rt!(msk.access_structure, AccessStructure, "structure");
+    // the independent reader agrees on the counts
+    match (WMsk::parse(&mb), WMpk::parse(&pb), WUsk::parse(&ub)) {
+        (Ok(wm), Ok(wp), Ok(wu)) => {
+            let max_chain = wm.chains.iter().map(|c| c.1.len()).max().unwrap_or(0);
+            if wm.chains.len() != 131 * 2 || max_chain != 131 || wp.keys.len() != 131 * 2 || wu.chains.len() != 131 * 2 {
+                fail(st, "sizes:counts-differ", format!("msk rights {} (max chain {max_chain}), mpk keys {}, usk rights {}", wm.chains.len(), wp.keys.len(), wu.chains.len()));
+            }
+            let max_id = wm.structure.dims.iter().flat_map(|d| d.attrs.iter().map(|a| a.id)).max().unwrap_or(0);
+            if max_id < 128 {
+                fail(st, "sizes:ids-too-small-for-the-scenario", format!("{max_id}"));
+            }
+        }
+        _ => fail(st, "sizes:wire-reader-rejects", String::new()),
+    }
+    // behaviour through the copies
+    let _ = msk2;
+    for (name, u, e, s, expect) in [
+        ("refreshed(keep) 131-revision key on the oldest encapsulation", &usk_one2, &e0b, &s0, true),
+        ("refreshed(keep) 131-revision key on the newest encapsulation", &usk_one2, &e1, &s1, true),
+        ("'*' key with 262 rights on the newest encapsulation", &usk_all2, &e1, &s1, true),
+    ] {
+        st.bump("golden_decaps");
+        match call(|| cc.decaps(u, e)) {
+            Out::Ok(Some(k)) if expect && real::secret_bytes(&k) == real::secret_bytes(s) => {}
+            o => fail(st, "sizes:decaps-differs", format!("{name}: {}", match o { Out::Ok(Some(_)) => "wrong secret".to_string(), Out::Ok(None) => "None".to_string(), x => x.describe() })),
+        }
+    }
+    st.shapes.insert(fnv(b"sizes-scenario"));
+}
+
 /// Loads the vectors with the current tree and checks that they still work.
 pub fn check(path: &str) -> Stats {
     let mut st = Stats::default();
@@ -321,6 +428,7 @@ pub fn check(path: &str) -> Stats {
             }
         }
     }
+    sizes(&mut st);
     st.sample(json!({"golden_file": path, "objects": st.get("golden_objects_loaded"), "decaps": st.get("golden_decaps")}), 1);
     st
 }
